@@ -70,11 +70,10 @@ Definition hdr_of (m : hmsg) (f : frag) : Prop :=
   f_ty f = m_ty m /\ f_len f = len (m_body m) /\ f_seq f = m_seq m.
 
 (* a partition of message m as a sender may emit it: non-empty list, headers repeated,
-   offsets contiguous from 0, bodies concatenate to the message body, no two fragments
-   start at the same offset *)
+   offsets contiguous from 0, bodies concatenate to the message body.  Zero-length fragments may
+   sit anywhere (the receiver ignores them unless they are the fragment of an empty message). *)
 Definition good_part (m : hmsg) (P : list frag) : Prop :=
-  P <> [] /\ Forall (hdr_of m) P /\ contiguous 0 P /\ cat_data P = m_body m /\
-  NoDup (map f_off P).
+  P <> [] /\ Forall (hdr_of m) P /\ contiguous 0 P /\ cat_data P = m_body m.
 
 Definition split_msg (mtu : N) (m : hmsg) : list frag :=
   split mtu (m_ty m) (len (m_body m)) (m_seq m) (m_body m).
